@@ -38,6 +38,7 @@ type caseJSON struct {
 	Tx       [][2]string `json:"tx_hex,omitempty"` // key (ASCII), value (hex)
 	ValueHex string      `json:"value_hex"`
 	Capture  bool        `json:"capture,omitempty"`
+	Prefilter bool       `json:"prefilter,omitempty"` // SecRxPreFilter On / OperatorOptions.RxPreFilterEnabled
 	Phrases  []string    `json:"phrases_hex,omitempty"`
 	// observations
 	Res      string    `json:"res,omitempty"` // true | false | error
@@ -157,6 +158,7 @@ type runner struct {
 	seen     map[string]bool
 	nontriv  int
 	oracleN  int
+	pf       bool // current SecRxPreFilter setting for @rx cases
 }
 
 func (r *runner) fail(key, what string, c any) {
@@ -166,7 +168,7 @@ func (r *runner) fail(key, what string, c any) {
 func (r *runner) emit(term string, cj *caseJSON, nontrivial bool, dist string) {
 	r.res.Evaluations++
 	r.res.InputDistribution[dist]++
-	k := cj.Kind + "|" + cj.Op + "|" + cj.ArgHex + "|" + cj.ValueHex + "|" + fmt.Sprint(cj.Capture, cj.Tx, cj.Phrases)
+	k := cj.Kind + "|" + cj.Op + "|" + cj.ArgHex + "|" + cj.ValueHex + "|" + fmt.Sprint(cj.Capture, cj.Prefilter, cj.Tx, cj.Phrases)
 	if !r.seen[k] {
 		r.seen[k] = true
 		if nontrivial {
@@ -346,9 +348,9 @@ func rxResult(pat, value string) (res bool, ok bool) {
 }
 
 func (r *runner) runRx(pat, value string, capture bool) {
-	cj := &caseJSON{Kind: "rx", ArgHex: hx(pat), ValueHex: hx(value), Capture: capture}
+	cj := &caseJSON{Kind: "rx", ArgHex: hx(pat), ValueHex: hx(value), Capture: capture, Prefilter: r.pf}
 	idx, matched, ok := rxOracle(pat, value)
-	op, err := operators.Get("rx", plugintypes.OperatorOptions{Arguments: pat})
+	op, err := operators.Get("rx", plugintypes.OperatorOptions{Arguments: pat, RxPreFilterEnabled: r.pf})
 	if !ok || err != nil {
 		if ok != (err == nil) {
 			r.fail("c15-rx-compile", "@rx and regexp.Compile((?sm)pattern) disagree on validity", cj)
@@ -369,7 +371,7 @@ func (r *runner) runRx(pat, value string, capture bool) {
 		m = "(Some " + zlist(idx) + ")"
 	}
 	term := fmt.Sprintf("CRx %s %s %s %s %s", m, vh.HxS(value), vh.Bool(capture), vh.Bool(b), capsTerm(cj.Caps))
-	r.emit(term, cj, b, "rx_"+cj.Res)
+	r.emit(term, cj, b, "rx_"+cj.Res+pfTag(r.pf))
 }
 
 func (r *runner) runParse(optext string) {
@@ -396,8 +398,11 @@ func (r *runner) runParse(optext string) {
 // runRule: SecRule REQUEST_HEADERS:x "<optext>" "id:1,phase:1,pass[,capture],setvar..." on one value.
 // optext must not contain '"', '\\', newlines or backticks (directive quoting is property C16).
 func (r *runner) runRule(optext string, txv [][2]string, value string, capture bool, finding string) {
-	cj := &caseJSON{Kind: "rule", ArgHex: hx(optext), Tx: txv, ValueHex: hx(value), Capture: capture, Finding: finding}
+	cj := &caseJSON{Kind: "rule", ArgHex: hx(optext), Tx: txv, ValueHex: hx(value), Capture: capture, Finding: finding, Prefilter: r.pf}
 	var sb strings.Builder
+	if r.pf {
+		sb.WriteString("SecRxPreFilter On\n")
+	}
 	for i, kv := range txv {
 		fmt.Fprintf(&sb, "SecAction \"id:%d,phase:1,pass,nolog,setvar:tx.%s=%s\"\n", 100+i, kv[0], unhx(kv[1]))
 	}
@@ -463,7 +468,7 @@ func (r *runner) runRule(optext string, txv [][2]string, value string, capture b
 		nontrivial = matched
 	}
 	term := fmt.Sprintf("CRule %s %s %s %s %s %s %s", vh.HxS(optext), ltbl, rxm, vh.Bool(capture), txTerm(txv), vh.HxS(value), obs)
-	r.emit(term, cj, nontrivial, "rule_"+name+"_"+cj.Res)
+	r.emit(term, cj, nontrivial, "rule_"+name+"_"+cj.Res+pfTag(r.pf))
 }
 
 // modelParse mirrors ParseOperator just enough to know which oracle data a rule case needs
@@ -486,6 +491,13 @@ func modelParse(o string) (raw, name, arg string) {
 		name = name[2:]
 	}
 	return raw, name, arg
+}
+
+func pfTag(pf bool) string {
+	if pf {
+		return "_prefilter"
+	}
+	return ""
 }
 
 func isASCII(s string) bool {
@@ -515,6 +527,8 @@ func (r *runner) runDoc(doc json.RawMessage) {
 		return
 	}
 	arg, value := unhx(c.ArgHex), unhx(c.ValueHex)
+	r.pf = c.Prefilter
+	defer func() { r.pf = false }()
 	switch c.Kind {
 	case "mop":
 		r.runMop(c.Op, arg, c.Tx, value)
